@@ -22,6 +22,9 @@ CHECKS = {
     "C04": ("model_checking", "bumpmc arena explorer (profile core)", "§4 C04",
             "BFS over histories; every returned pointer (all flavours, grow, shrink) is checked against the requested alignment and MIN_ALIGN for MIN_ALIGN 1..16 and several chunk-base alignment classes.",
             "exhaustive history enumeration over placement classes"),
+    "C05": ("exploration", "probe-program generator + rustc (driver/c05.py)", "§4 C05",
+            "Bounded-exhaustive enumeration of client programs (statement sequences over holders of every public type carrying the arena lifetime and arena events), each compiled by rustc; a reference ownership model predicts the verdict and every disagreement in either direction is a violation. Auto-trait expectations (Send/Sync table) are probed the same way.",
+            "exhaustive program enumeration judged by the compiler"),
     "C06": ("model_checking", "bumpmc arena explorer (profile reset)", "§4 C06",
             "BFS over histories with reset at every reached state plus a terminal probe that takes the whole usable capacity of the kept block under a refusing allocator.",
             "exhaustive history enumeration with post-reset probes"),
@@ -94,7 +97,7 @@ def main():
             "replay_cmd_template": "./check replay {path}",
             "engine": engine,
             "level_claimed": {"category": cat, "text": text, "design_ref": ref},
-            "level_note": ARENA_NOTE if pid not in NOTES else NOTES[pid],
+            "level_note": NOTES.get(pid, ARENA_NOTE if pid < "C13" or pid in ("C18", "C19", "C20") else COLL_NOTE),
             "technique": tech,
         })
     m = {
@@ -118,7 +121,9 @@ def main():
     print("MANIFEST.json: %d checks, %d not_applicable" % (len(checks), len(m["not_applicable"])))
 
 
-NOTES = {}
+COLL_NOTE = ("Trusted base: rustc; std's Vec/String/Box as reference models; the engine's controlled global allocator and drop ledgers; canonical state keys (contents, capacity, arena room, neighbours). "
+             "Bounds (length, depth, chain steps, grid sizes) are stated in the evidence file.")
+NOTES = {"C05": "Trusted base: rustc's borrow checker and trait solver (the judge); the probe grammar and the reference ownership model are the machinery's own. Nothing is claimed about programs outside the grammar."}
 ENGINES = [{"name": "c20_loom", "path": "/verif/engine/c20_loom", "serves_properties": ["C20"], "kind_free_text": "loom 0.7 model of threads each driving its own arena; hook-driven race detection on the shared static"}]
 
 if __name__ == "__main__":
